@@ -791,6 +791,15 @@ impl TcpConnecter {
       }
       attempt_count += 1;
 
+      // This actor is spawned asynchronously: the closing / terminating event may have been published
+      // before it subscribed to the bus. The parent socket's own state is the authority.
+      if !self.socket_logic.core().is_running() {
+        last_connect_attempt_error = Some(ZmqError::Internal(
+          "Connecter shutdown by parent socket no longer running.".into(),
+        ));
+        break 'connecter_life_loop;
+      }
+
       match system_event_rx.try_recv() {
         Ok(SystemEvent::ContextTerminating) => {
           last_connect_attempt_error = Some(ZmqError::Internal(
